@@ -48,6 +48,7 @@ class Engine:
         I.overrides["vf.contracts.rt.fresh_int"] = _rt_fresh_int
         I.overrides["vf.contracts.rt.fresh_list"] = _rt_fresh_list
         I.overrides["vf.contracts.rt.fresh_inst"] = _rt_fresh_inst
+        I.overrides["vf.contracts.rt.grow_list"] = _rt_grow_list
         I.overrides["vf.contracts.rt.opaque"] = _rt_opaque
         return I
 
@@ -146,6 +147,17 @@ def _rt_fresh_list(I, args, kwargs, st):
     return [("val", I.alloc(st, HSymList(n, mk, what=str(name))), st)]
 
 
+def _rt_grow_list(I, args, kwargs, st):
+    """grow_list(lst, name): the list gains an arbitrary number (>= 0) of unknown elements at its end; its present elements stay."""
+    from .models import symlist_concat
+    lst, name = args[0], str(args[1])
+    n = I.fresh_int(name + "_added")
+    st.pc.append(n >= 0)
+    add = HSymList(n, lambda I2, st2, idx: Opaque(name), what=name)
+    st.heap[lst.oid] = symlist_concat(I, I.hget(st, lst), add, st)
+    return [("val", None, st)]
+
+
 def _rt_fresh_inst(I, args, kwargs, st):
     cls = args[0]
     fields = args[1] if len(args) > 1 else ()
@@ -232,6 +244,11 @@ class Builder:
         if qualname not in self.engine.index.functions:
             raise Unsupported(f"target-missing: function {qualname}")
         return FuncVal(qualname)
+
+    def symlist(self, name, minlen=0):
+        """A list of arbitrary length whose elements are opaque (a sub-tree nobody may look into)."""
+        n = self.int(name + "_len", minlen)
+        return self.I.alloc(self.st, HSymList(n, lambda I, st, idx: Opaque(name + "[...]"), what=name))
 
     VALUE_STRIDE = 1 << 16
 
